@@ -194,7 +194,7 @@ def run(ctx):
         dict(
             evaluations=n_states,
             distinct_nontrivial=n_equal + n_prog_equal,
-            rule="every accepted corpus part (both layouts must accept the same definitions) and every program of the C05 and C06 spaces compiled under both CodeFormat values from a fresh state; both texts statically checked; "
+            rule="every accepted corpus part (both layouts must accept the same definitions) and every program of the C05, C06 and C03 (declaration / boolean / store / register) spaces, void and value calls x argument kinds x statement contexts, all assignment operators on narrow / wide targets and folded conditionals compiled under both CodeFormat values from a fresh state; both texts statically checked; "
             "both executed by ILVM on the complete E5 domain of the operands (corpus %d, programs %d states each); compared: pending registers, memory, jump, slot cancel and every local variable; attribute lists compared per part; "
             "distinct_nontrivial = parts/programs with equal non-empty behaviour in both layouts" % (budget, _JOB["budget"]),
             exhaustive=True,
